@@ -17,7 +17,7 @@ def gen(rnd, n_projects, schedules):
     for i in range(n_projects):
         fw, micro, ident = logix_rw.config(rnd, i)
         proj, mem, _ = gen_project(rnd, n_tags=rnd.choice([1, 5, 15, 40]), programs=rnd.choice([0, 1, 2, 3]), junk=rnd.random() < 0.8,
-                                   iid_base=rnd.choice([None, 0, 250, 65530]))
+                                   iid_base=rnd.choice([None, 0, 250, 65530]), huge=(i % 11 == 4))
         for k in range(schedules):
             allp = rnd.random() < 0.7
             pages = {0: [], 1: [1] * 400, 2: [rnd.choice([1, 2, 3, 7]) for _ in range(300)]}[k % 3]
